@@ -278,6 +278,51 @@ func init() {
 		ex.setBool("c03CacheStoresOnlyNewResponse", okNew, ce != nil, "cache.Exec: rBefore := qCtx.R() immediately before next.ExecNext; the only saveRespToCache of Exec under `r != nil && rBefore != r`")
 		ex.setBool("c03CacheStoreCopiesQuestion", okCopyQ, cn != nil, "cache copyNoOpt: the stored message's Question slice is allocated (make + copy), the only assignment to it")
 		ex.setBool("c03UdpUnpackInReadLoop", okUDP, shapeUDP, "ServeUDP: the loop unpacks (*rb)[:n] into a fresh message before `go`; the handler goroutine (last statement of the loop body) refers to neither rb nor ob")
+		// FakeSOA (the authority record of locally generated empty answers; hosts.LookupMsg passes the QUERY NAME): the
+		// function is one return of a composite literal whose Ns and Mbox are string literals, i.e. constants that do not
+		// depend on the name; their wire lengths (presentation form without escapes, ending in a dot: len+1)
+		fs := ex.fn("pkg/dnsutils/msg.go", "", "FakeSOA")
+		okSoa, nsW, mbW := false, int64(0), int64(0)
+		if fs != nil && len(fs.Body.List) == 1 {
+			if ret, ok := fs.Body.List[0].(*ast.ReturnStmt); ok && len(ret.Results) == 1 {
+				var cl *ast.CompositeLit
+				if u, ok := ret.Results[0].(*ast.UnaryExpr); ok {
+					cl, _ = u.X.(*ast.CompositeLit)
+				}
+				if cl != nil && ex.str(cl.Type) == "dns.SOA" {
+					lit := func(e ast.Expr) (int64, bool) {
+						b, ok := e.(*ast.BasicLit)
+						if !ok || len(b.Value) < 3 || b.Value[0] != '"' || strings.ContainsAny(b.Value[1:len(b.Value)-1], "\\\"") || !strings.HasSuffix(b.Value, ".\"") {
+							return 0, false
+						}
+						return int64(len(b.Value) - 2 + 1), true
+					}
+					nNs, nMb := 0, 0
+					for _, el := range cl.Elts {
+						kv, ok := el.(*ast.KeyValueExpr)
+						if !ok {
+							continue
+						}
+						switch ex.str(kv.Key) {
+						case "Ns":
+							nNs++
+							if w, ok := lit(kv.Value); ok {
+								nsW = w
+							}
+						case "Mbox":
+							nMb++
+							if w, ok := lit(kv.Value); ok {
+								mbW = w
+							}
+						}
+					}
+					okSoa = nNs == 1 && nMb == 1 && nsW > 0 && mbW > 0
+				}
+			}
+		}
+		ex.setBool("c03FakeSoaNamesConstant", okSoa, fs != nil, "dnsutils.FakeSOA: a single return of &dns.SOA{...} whose Ns and Mbox are string literals (independent of the name passed in)")
+		ex.setNat("c03FakeSoaNsWire", nsW, okSoa, "dnsutils.FakeSOA: wire length of the Ns literal")
+		ex.setNat("c03FakeSoaMboxWire", mbW, okSoa, "dnsutils.FakeSOA: wire length of the Mbox literal")
 		ex.setBool("c03LocalAnswersUseSetReply", okLocal, true, "hosts.LookupMsg, black_hole.Response, zone_file Reply, GenEmptyReply build their message with SetReply/SetRcode from the query")
 	})
 }
